@@ -116,7 +116,11 @@ func (fx *FnCtx) callFunction(st *State, pc *Term, f *ssa.Function, bindings []V
 		fx.V.usedAuto[key] = true
 	}
 	if fc != nil && !fc.Inline {
-		return fx.contractCall(st, pc, fc, f, args, rt)
+		res := fx.contractCall(st, pc, fc, f, args, rt)
+		if key == "io.ReadFull" && len(args) == 2 && len(res.L) >= 2 {
+			fx.recordSliceRead(st, pc, args[1], types.Typ[types.Uint8], res.L[1])
+		}
+		return res
 	}
 	if (fc != nil && fc.Inline) || autoInline[key] || (bindings != nil && fc == nil) {
 		if f.Blocks == nil {
@@ -1221,6 +1225,7 @@ func (fx *FnCtx) binaryRead(st *State, pc *Term, call *ssa.CallCommon, rt types.
 			for _, f := range rfacts {
 				fx.assume(f)
 			}
+			fx.recordSliceRead(st, pc, x, sl.Elem(), res.L[0])
 			return res
 		}
 	}
@@ -1243,7 +1248,46 @@ func (fx *FnCtx) binaryRead(st *State, pc *Term, call *ssa.CallCommon, rt types.
 	for _, f := range rfacts {
 		fx.assume(f)
 	}
+	sr := &StreamRead{PC: pc, ErrTag: res.L[0]}
+	if !fx.flattenStream(p.Typ, nv.L, sr) {
+		fx.root.streamBad = true
+	}
+	fx.root.stream = append(fx.root.stream, sr)
 	return res
+}
+
+// flattenStream lists the integer values of a fixed-size value in encoding order.
+func (fx *FnCtx) flattenStream(t types.Type, leaves []*Term, sr *StreamRead) bool {
+	switch u := t.Underlying().(type) {
+	case *types.Basic:
+		if w, _, ok := intInfo(t); ok && len(leaves) == 1 {
+			sr.Terms = append(sr.Terms, leaves[0])
+			sr.Widths = append(sr.Widths, w/8)
+			return true
+		}
+	case *types.Array:
+		if w, _, ok := intInfo(u.Elem()); ok && len(leaves) == 1 && u.Len() <= 64 {
+			for k := int64(0); k < u.Len(); k++ {
+				sr.Terms = append(sr.Terms, Select(leaves[0], fx.tc.IdxNum(k)))
+				sr.Widths = append(sr.Widths, w/8)
+			}
+			return true
+		}
+	}
+	return false
+}
+
+// recordSliceRead records a read that filled the slice x (after the call) from a reader.
+func (fx *FnCtx) recordSliceRead(st *State, pc *Term, x Value, el types.Type, errTag *Term) {
+	w, _, ok := intInfo(el)
+	lay := fx.tc.Layout(el)
+	if !ok || len(lay.Leaves) != 1 {
+		fx.root.streamBad = true
+		return
+	}
+	name := arrHeapName(el, lay.Leaves[0])
+	h := fx.Heap(st, name, lay.Leaves[0])
+	fx.root.stream = append(fx.root.stream, &StreamRead{PC: pc, ErrTag: errTag, Heap: h, Arr: x.L[0], Lo: x.L[1], Len: x.L[2], ElemW: w / 8})
 }
 
 // sortModel is the built-in model of sort.Sort / sort.Stable / sort.IsSorted applied to a slice type
